@@ -206,9 +206,18 @@ def revise_namespaces(
             for reason, message in blockers:
                 logger.debug(f"Namespace {namespace!r} termination pending: {reason}: {message}")
         elif deleted:
-            insights.namespaces.discard(namespace)
+            # The events of different objects can be processed out of order: do not forget a namespace
+            # because of a belated deletion event of its same-named predecessor (it has another uid).
+            known_uid = insights.namespace_uids.get(namespace)
+            event_uid = raw_event['object'].get('metadata', {}).get('uid')
+            if known_uid is None or event_uid is None or known_uid == event_uid:
+                insights.namespaces.discard(namespace)
+                insights.namespace_uids.pop(namespace, None)
         elif matched:
             insights.namespaces.add(namespace)
+            uid = raw_event['object'].get('metadata', {}).get('uid')
+            if uid is not None:
+                insights.namespace_uids[namespace] = uid
 
 
 def revise_resources(
